@@ -598,7 +598,7 @@ func (r *lrunner) run() {
 			break
 		}
 	}
-	if r.store != nil {
+	if r.store != nil && c.Height < 7 { // (a final dump of a height-8 tree alone is 2.7 GB)
 		func() {
 			defer func() { recover() }()
 			r.store.Close()
